@@ -117,6 +117,18 @@ def try_shrink(tie, cpp, mdl, case, still_bad):
 
 
 def run_check(P, tier, seed, replay=None, only_tie=None):
+    """Holds a shared lock on the state of /repo for the whole run, so that a mutation test
+    (tools/mutate, exclusive lock) never overlaps a check that expects the unchanged tree."""
+    if os.environ.get("VERIF_HAVE_REPO_LOCK") == "1":
+        return run_check_locked(P, tier, seed, replay, only_tie)
+    import fcntl
+    os.makedirs(core.BUILD, exist_ok=True)
+    with open(os.path.join(core.BUILD, ".repo_state.lock"), "w") as lf:
+        fcntl.flock(lf, fcntl.LOCK_SH)
+        return run_check_locked(P, tier, seed, replay, only_tie)
+
+
+def run_check_locked(P, tier, seed, replay=None, only_tie=None):
     t0 = time.time()
     pid = P.ID
     viol_lines = []
